@@ -93,7 +93,7 @@ pub const CHECKS: &[Check] = &[
     },
     Check {
         id: "C08",
-        scenarios: &[("pool", 450_000, 9_000_000), ("mt-pool", 20_000, 500_000)],
+        scenarios: &[("pool", 450_000, 9_000_000), ("mt-pool", 20_000, 500_000), ("pool-wrap", 0, 48)],
         owns: &["pool."],
         level: "exploration",
         rule: "one case = one seeded history of pool reads, multishot reads, edits, releases and drops; after every step {kernel window} + {owned by live ReadBufs} partitions the pool; distinct = distinct abstract trace hash; non-trivial = fault fired, kernel acted at a yield point or thread switch",
@@ -130,7 +130,7 @@ pub const CHECKS: &[Check] = &[
     Check {
         id: "C12",
         scenarios: &[("teardown", 500_000, 10_000_000)],
-        owns: &["teardown.", "mem.leak", "mem.double-free"],
+        owns: &["teardown.", "mem.leak", "mem.double-free", "mem.freed-while-kernel-owns"],
         level: "exploration",
         rule: "one case = one seeded object graph (ring, queue clones, descriptors, operations in every state, pools, buffers) dropped in a drawn order; guard pages, mmap ledger, descriptor ledger, registrations and allocator are checked afterwards; distinct = distinct abstract trace hash; non-trivial = fault fired or kernel acted at a yield point",
         assumptions: STUB_ASSUMPTIONS,
@@ -269,7 +269,7 @@ struct Agg {
     samples: Vec<String>,
 }
 
-fn run_workers(scenario: &str, seed: u64, total: u64, budget: Duration, agg: &mut Agg) {
+fn run_workers(bin: &std::path::Path, scenario: &str, seed: u64, total: u64, budget: Duration, agg: &mut Agg) {
     let workers: u64 = std::env::var("VERIF_WORKERS")
         .ok()
         .and_then(|s| s.parse().ok())
@@ -293,7 +293,7 @@ fn run_workers(scenario: &str, seed: u64, total: u64, budget: Duration, agg: &mu
                     if left.is_zero() {
                         break;
                     }
-                    let mut child = Command::new(exe())
+                    let mut child = Command::new(bin)
                         .arg("worker")
                         .arg(scenario)
                         .arg(seed.to_string())
@@ -306,6 +306,28 @@ fn run_workers(scenario: &str, seed: u64, total: u64, budget: Duration, agg: &mu
                         .stderr(Stdio::null())
                         .spawn()
                         .expect("spawn worker");
+                    // Watchdog: a run that never ends (a10 loops or blocks
+                    // forever) must not hang the check.
+                    let pid = child.id() as i32;
+                    let finished = std::sync::Arc::new(std::sync::atomic::AtomicBool::new(false));
+                    {
+                        let finished = finished.clone();
+                        let grace = left + Duration::from_secs(20);
+                        std::thread::spawn(move || {
+                            let t0 = Instant::now();
+                            while t0.elapsed() < grace {
+                                if finished.load(std::sync::atomic::Ordering::Acquire) {
+                                    return;
+                                }
+                                std::thread::sleep(Duration::from_millis(200));
+                            }
+                            unsafe { libc::kill(pid, libc::SIGTERM) };
+                            std::thread::sleep(Duration::from_secs(5));
+                            if !finished.load(std::sync::atomic::Ordering::Acquire) {
+                                unsafe { libc::kill(pid, libc::SIGKILL) };
+                            }
+                        });
+                    }
                     let rd = BufReader::new(child.stdout.take().unwrap());
                     let mut local = Agg::default();
                     let mut next = None;
@@ -338,6 +360,20 @@ fn run_workers(scenario: &str, seed: u64, total: u64, budget: Duration, agg: &mu
                             done = true;
                         } else if let Some(rest) = line.strip_prefix("SAMPLE ") {
                             local.samples.push(rest.to_string());
+                        } else if let Some(rest) = line.strip_prefix("HUNG ") {
+                            let idx: u64 = rest
+                                .split(' ')
+                                .find_map(|p| p.strip_prefix("run="))
+                                .and_then(|s| s.trim().parse().ok())
+                                .unwrap_or(start);
+                            local.violations.push((
+                                scenario.to_string(),
+                                idx,
+                                "hang".to_string(),
+                                "the run never ended: a10 loops or blocks forever (killed by the watchdog)".to_string(),
+                            ));
+                            local.runs += idx.saturating_sub(start) / workers + 1;
+                            next = Some(idx + workers);
                         } else if let Some(rest) = line.strip_prefix("SEGV ") {
                             // "class=<c> run=<i>"
                             let class = rest
@@ -361,6 +397,7 @@ fn run_workers(scenario: &str, seed: u64, total: u64, budget: Duration, agg: &mu
                         }
                     }
                     let status = child.wait().ok();
+                    finished.store(true, std::sync::atomic::Ordering::Release);
                     if !done && next.is_none() {
                         // Died without telling us (abort, stack overflow, ...).
                         let code = status.and_then(|s| s.code()).unwrap_or(-1);
@@ -647,19 +684,35 @@ pub fn check(id: &str, tier: &str, seed: u64) -> i32 {
         Duration::from_secs(45)
     };
     let per = budget / chk.scenarios.len() as u32;
+    let mut profiles = "sim";
     for (scenario, quick, thor) in chk.scenarios {
         if crate::scenarios::find(scenario).is_none() {
             continue;
         }
         let total = if thorough { *thor } else { *quick };
         let scale: f64 = std::env::var("VERIF_SCALE").ok().and_then(|s| s.parse().ok()).unwrap_or(1.0);
+        if total == 0 {
+            continue;
+        }
         let total = ((total as f64) * scale) as u64;
-        run_workers(scenario, seed, total.max(1), per, &mut agg);
+        run_workers(&exe(), scenario, seed, total.max(1), per, &mut agg);
+        // The thorough tier also runs the build users ship (no debug
+        // assertions, wrapping arithmetic), where a10 behaves differently.
+        let rel = std::path::PathBuf::from("/verif/harness/target/simrel/a10sim");
+        if thorough && rel.exists() && *scenario != "pool-wrap" {
+            run_workers(&rel, scenario, seed ^ 0x5eed, (total / 4).max(1), per / 3, &mut agg);
+            profiles = "sim + simrel";
+        }
     }
 
     let known = read_known();
     let owns = |class: &str| {
-        chk.owns.iter().any(|p| class.starts_with(p)) || class == "panic" || class.starts_with("segv")
+        chk.owns.iter().any(|p| class.starts_with(p))
+            || class == "panic"
+            || class == "hang"
+            || class == "mem.use-after-free"
+            || class == "mem.heap-overflow"
+            || class.starts_with("segv")
     };
     let mut mine: Vec<&(String, u64, String, String)> =
         agg.violations.iter().filter(|v| owns(&v.2)).collect();
@@ -801,7 +854,7 @@ pub fn check(id: &str, tier: &str, seed: u64) -> i32 {
         .collect();
     let assumptions: Vec<String> = chk.assumptions.iter().map(|a| json_str(a)).collect();
     let evidence = format!(
-        "{{\n \"property_id\": {},\n \"tier\": {},\n \"seed\": {seed},\n \"level\": {},\n \"coverage\": {{\n  \"evaluations\": {},\n  \"distinct_nontrivial\": {},\n  \"nontrivial_runs\": {},\n  \"rule\": {},\n  \"scenarios\": [{}],\n  \"runs_per_hour\": {:.0},\n  \"simulated_seconds\": {:.3},\n  \"faults_fired\": {{{}}},\n  \"probes\": {{{}}},\n  \"probes_zero\": [{}],\n  \"totals\": {{{}}},\n  \"components\": {{\"real\": [\"a10 (all of the io_uring backend and public API)\", \"std::sync Mutex/Arc/atomics\", \"real OS threads (one runnable at a time)\", \"global allocator (wrapped)\"], \"stub\": [\"Linux io_uring: io_uring_setup/enter/register\", \"ring mmap/munmap/madvise\", \"close(2) fallback of AsyncFd::drop\", \"thread scheduling (baton)\", \"time (simulated clock)\"]}},\n  \"known_finding_hits\": {},\n  \"samples\": [\n   {}\n  ]\n }},\n \"assumptions\": [{}],\n \"wall_s\": {:.2},\n \"violations\": {}\n}}\n",
+        "{{\n \"property_id\": {},\n \"tier\": {},\n \"seed\": {seed},\n \"level\": {},\n \"coverage\": {{\n  \"evaluations\": {},\n  \"distinct_nontrivial\": {},\n  \"nontrivial_runs\": {},\n  \"rule\": {},\n  \"scenarios\": [{}],\n  \"profiles\": {},\n  \"runs_per_hour\": {:.0},\n  \"simulated_seconds\": {:.3},\n  \"faults_fired\": {{{}}},\n  \"probes\": {{{}}},\n  \"probes_zero\": [{}],\n  \"totals\": {{{}}},\n  \"components\": {{\"real\": [\"a10 (all of the io_uring backend and public API)\", \"std::sync Mutex/Arc/atomics\", \"real OS threads (one runnable at a time)\", \"global allocator (wrapped)\"], \"stub\": [\"Linux io_uring: io_uring_setup/enter/register\", \"ring mmap/munmap/madvise\", \"close(2) fallback of AsyncFd::drop\", \"thread scheduling (baton)\", \"time (simulated clock)\"]}},\n  \"known_finding_hits\": {},\n  \"samples\": [\n   {}\n  ]\n }},\n \"assumptions\": [{}],\n \"wall_s\": {:.2},\n \"violations\": {}\n}}\n",
         json_str(chk.id),
         json_str(if thorough { "thorough" } else { "quick" }),
         json_str(chk.level),
@@ -810,6 +863,7 @@ pub fn check(id: &str, tier: &str, seed: u64) -> i32 {
         agg.nontrivial,
         json_str(chk.rule),
         scen.join(","),
+        json_str(profiles),
         per_hour,
         sim_ns as f64 / 1e9,
         faults.join(", "),
